@@ -1,10 +1,78 @@
-(* C08 — placeholder until Proofs/CloseProof.v lands: at most one automatic close reply. *)
+(* C08 — closing handshake and connection state follow one consistent state machine. *)
 From Coq Require Import ZArith List.
-From WS Require Import Base.Res Base.Bytes Model.Recv Model.Conn Proofs.ConnSpec Proofs.ConnProof.
+From WS Require Import Base.Res Base.Bytes Spec.Frame Gen.GenAbnf Gen.GenCore Model.Xport Model.Recv Model.Send
+  Model.Conn Model.Script Proofs.SendProof Proofs.CloseSpec Proofs.CloseProof.
 Import ListNotations.
 Open Scope Z_scope.
-Theorem C08_close_reply_once : forall fire skip control fs cf conn,
-  (length (filter (fun o => match o with OCloseReply => true | _ => false end)
-                  (run_frames fire skip control conn cf fs)) <= 1)%nat.
-Proof. exact ConnProof.C08_close_reply_once. Qed.
-Print Assumptions C08_close_reply_once.
+
+(* Over ANY sequence of API calls and ANY server behaviour on a fresh connection, at most one
+   close frame is ever written on the client's own initiative (its close() or the automatic
+   reply to the server's close frame). *)
+Theorem C08_one_close : forall x ks fire skip os,
+  iolog x = [] -> forallb implicit_only os = true ->
+  (close_count (all_io (snd (run_ops (ws_init x ks fire skip) os))) <= 1)%nat.
+Proof. exact C08_one_close_fresh. Qed.
+Print Assumptions C08_one_close.
+
+(* ... and with explicit send_close()/send(.., OPCODE_CLOSE) calls in the history, at most one more per such call *)
+Theorem C08_close_bound : forall x ks fire skip os, iolog x = [] ->
+  (close_count (all_io (snd (run_ops (ws_init x ks fire skip) os)))
+   <= 1 + length (filter (fun o => negb (implicit_only o)) os))%nat.
+Proof. exact C08_close_bound_fresh. Qed.
+Print Assumptions C08_close_bound.
+
+(* the close frame carries the requested status and reason in the RFC encoding (masked, FIN) *)
+Theorem C08_encoding : forall w st reason k ks x,
+  connected w = true -> sock w = Some x -> keys w = k :: ks -> 0 <= st < 65536 ->
+  bytes_ok reason -> zlen reason < 2 ^ 62 -> bytes_ok k -> length k = 4%nat ->
+  exists w1, ws_send_close w st reason = (Ok tt, w1) /\ connected w1 = false /\ keys w1 = ks /\
+    sock w1 = Some (xlog x (IWrite (encode (client_frame 1 OPCODE_CLOSE k (be_encode 2 st ++ reason))))).
+Proof. exact CloseProof.C08_encoding. Qed.
+Print Assumptions C08_encoding.
+
+(* out-of-range statuses are refused before anything is written or changed *)
+Theorem C08_range_first : forall w st r,
+  connected w = true -> close_bad_status st = true -> ws_close w st r = (Raise ValueErr, w).
+Proof. exact CloseProof.C08_range_first. Qed.
+Print Assumptions C08_range_first.
+Theorem C08_range_first_send_close : forall w st r,
+  send_close_bad_status st = true -> ws_send_close w st r = (Raise ValueErr, w).
+Proof. exact CloseProof.C08_range_first_send_close. Qed.
+Print Assumptions C08_range_first_send_close.
+Theorem C08_bad_status_iff : forall st, close_bad_status st = true <-> (st < 0 \/ st >= 65536).
+Proof. exact bad_status_iff. Qed.
+Print Assumptions C08_bad_status_iff.
+
+(* close() releases the transport; so does a lost connection *)
+Theorem C08_close_releases : forall w st r res w',
+  ws_inv w -> ws_close w st r = (res, w') -> res = Ok tt -> sock w' = None /\ connected w' = false.
+Proof. exact CloseProof.C08_close_releases. Qed.
+Print Assumptions C08_close_releases.
+Theorem C08_loss_releases : forall w w',
+  ws_recv_frame w = (Raise ConnClosed, w') -> sock w' = None /\ connected w' = false.
+Proof. exact CloseProof.C08_loss_releases. Qed.
+Print Assumptions C08_loss_releases.
+
+(* once released: every later call leaves the object closed, touches no transport, and every
+   send/receive/ping raises the connection-closed exception *)
+Theorem C08_closed_sticky : forall w o, sock w = None -> ws_inv w ->
+  let '(r, w') := run_op w o in
+  sock w' = None /\ connected w' = false /\ all_io w' = all_io w /\
+  (needs_transport o = true -> payload_len o < 2 ^ 63 ->
+   r = RExn ConnClosed \/ (r = RExn OutOfFuel /\ keys w = [] /\ is_recv_op o = false)).
+Proof. exact C08_closed_sticky_partial. Qed.
+Print Assumptions C08_closed_sticky.
+(* (OutOfFuel only says the model's finite key stream was empty; the real key source never is.) *)
+
+(* the one transport is closed at most once, and the invariant "no transport => not connected" holds throughout *)
+Theorem C08_transport_closed_once : forall x ks fire skip os, iolog x = [] ->
+  (length (filter is_transport_close (all_io (snd (run_ops (ws_init x ks fire skip) os)))) <= 1)%nat.
+Proof. exact C08_transport_closed_once_fresh. Qed.
+Print Assumptions C08_transport_closed_once.
+Theorem C08_invariant : forall x ks fire skip os, ws_inv (snd (run_ops (ws_init x ks fire skip) os)).
+Proof. exact C08_inv_run. Qed.
+Print Assumptions C08_invariant.
+
+(* close() itself always returns: [ws_close] is a total function whose wait loop ([close_wait]) stops at
+   the first close frame, exception, timeout or end of stream.  How long that takes in wall-clock
+   time is outside the model; the virtual-clock runs of ./check C08 cover it. *)
